@@ -75,6 +75,15 @@ theorem copy_eq_expected (st : St) (o : Obj) (hs : Scoped st o) (op : Op) (hr : 
     exact readAll_basicSlice st o.record v sl hv
   · exact hex (fun f sl e => hsn ⟨f, sl, e⟩)
 
+/-- functions that build one sample set from **several** (`concatenate`, with vartype coercion through
+    `change_vartype(inplace=False)` and column re-ordering through `record.copy()` as coded): every buffer that
+    existed before the call — all inputs, not only the first — reads the same afterwards, and the result's
+    record is a new buffer -/
+theorem all_inputs_unchanged (st : St) (first : Arr) (others : List (Arr × (Rat → Rat) × Bool × Bool)) :
+    (∀ b : Arr, b.base < st.next → readAll (concatInputs st first others).1 b = readAll st b) ∧
+    st.next ≤ (concatInputs st first others).2.base :=
+  concatInputs_spec st first others
+
 /-! ## the code before the repairs: witnesses -/
 
 def st0 : St := { mem := fun _ k => (k : Rat), next := 5 }
